@@ -870,6 +870,7 @@ func (w *world) runClient(c *client) {
 				}
 			}
 			got := map[string]actors.Reply{}
+			var wholeFail *actors.Reply
 			// go-smtp answers once per entry of its recipient list, which
 			// still contains the recipients of a transaction abandoned by a
 			// repeated LHLO (see known findings); read that many replies so
@@ -893,11 +894,23 @@ func (w *world) runClient(c *client) {
 					got[addr] = fr
 					continue
 				}
+				if addr == "" && !fr.OK() {
+					// a failure reply that names no recipient is go-smtp's answer
+					// for the transfer as a whole (e.g. the BDAT pipe closed by a
+					// server shutdown), not a per-recipient status: one reply,
+					// nothing else follows (false alarm of the thorough tier)
+					wholeFail = &fr
+					break
+				}
 				tx.Foreign = append(tx.Foreign, fr)
 			}
 			stale = 0
-			for _, r := range accepted {
-				tx.Final = append(tx.Final, got[r])
+			if wholeFail != nil {
+				tx.Final = append(tx.Final, *wholeFail)
+			} else {
+				for _, r := range accepted {
+					tx.Final = append(tx.Final, got[r])
+				}
 			}
 			_ = n
 		}
